@@ -4,6 +4,8 @@ namespace F1.Drive
 open F1.Util F1.Handle
 
 def parseAct (s : String) : Option Act :=
+  -- `W<act>`: the action executed inside `t.Time(stage, …)`, which is transparent for the handle
+  let s := if s.startsWith "W" then (s.drop 1).toString else s
   match s.toList with
   | 'r' :: r => (String.ofList r).toNat?.map Act.reg
   | ['F'] => some .fail
@@ -161,13 +163,17 @@ def scnMeasure (_args impl : List String) : Option (String × String) :=
       else if d ≠ "count=1" then "FAIL iteration-not-counted-once" else "ok")
   | _ => some ("-", "FAIL no-impl-output")
 
-/-- `scn.counts` — ground truth | result | metrics must agree -/
+/-- `scn.counts` — per run: ground truth / result / metrics (+ number of setup samples) must agree -/
 def scnCounts (_args impl : List String) : Option (String × String) :=
-  match impl with
-  | [a, b, c, "/", d, e, f, "/", g, h, i] =>
-    some ("-", if [a, b, c] ≠ [d, e, f] then "FAIL result-counts-differ-from-executed-iterations"
-      else if [a, b, c] ≠ [g, h, i] then "FAIL metric-samples-differ-from-executed-iterations" else "ok")
-  | _ => some ("-", "FAIL no-impl-output")
+  let one : List String → String
+    | [a, b, c, "/", d, e, f, "/", g, h, i, su] =>
+      if [a, b, c] ≠ [d, e, f] then "FAIL result-counts-differ-from-executed-iterations"
+      else if [a, b, c] ≠ [g, h, i] then "FAIL metric-samples-differ-from-executed-iterations"
+      else if su ≠ "1" then "FAIL setup-metric-not-exactly-one-sample" else "ok"
+    | _ => "FAIL no-impl-output"
+  let rounds := (" ".intercalate impl).splitOn " // "
+  let res := rounds.map fun r => one ((r.splitOn " ").filter (· ≠ ""))
+  some ("-", (res.find? (· ≠ "ok")).getD "ok")
 
 /-- `scn2 <rounds> <components>` — every round of a repeatedly set-up combined scenario looks like
 the first -/
